@@ -339,10 +339,19 @@ def sweeps(tier, rng):
                 continue
             sb = OnlineVarStoreBuilder(axes); sb.setModel(model)
             idxs = []; vals = []
+            pool = []                                                  # rows recur: the builder's cache has to give each its OWN index
+            def row():
+                if pool and rng.chance(35): return list(rng.choice(pool))
+                r_ = [rng.choice([0, 0, rng.randint(-300, 300), rng.randint(-40000, 40000)]) for _ in locs]; pool.append(r_); return r_
             for _ in range(rng.randint(3, 30)):
-                masters = [rng.choice([0, 0, rng.randint(-300, 300), rng.randint(-40000, 40000)]) for _ in locs]
-                base, vi = sb.storeMasters(masters)
-                idxs.append(vi); vals.append((base, masters))
+                if rng.chance(30):
+                    batch = [row() for _b in range(rng.randint(2, 4))]
+                    bases, first = sb.storeMastersMany(batch)
+                    for j_, (b_, m_) in enumerate(zip(bases, batch)): idxs.append(first + j_); vals.append((b_, m_))
+                else:
+                    masters = row()
+                    base, vi = sb.storeMasters(masters)
+                    idxs.append(vi); vals.append((base, masters))
             store = sb.finish()
             class FakeFvarAxis:
                 def __init__(s, tag): s.axisTag = tag
